@@ -149,6 +149,17 @@ fn const_json<'tcx>(tcx: TyCtxt<'tcx>, typing_env: TypingEnv<'tcx>, c: &ConstOpe
             } else if let ty::Adt(def, _) = ty.kind() {
                 v.push(("adt", J::s(&canon_path(tcx, def.did()))));
             }
+            // references to statics
+            if matches!(ty.kind(), ty::Ref(..) | ty::RawPtr(..)) {
+                if let Ok(val) = c.const_.eval(tcx, typing_env, c.span) {
+                    if let rustc_middle::mir::ConstValue::Scalar(rustc_middle::mir::interpret::Scalar::Ptr(ptr, _)) = val {
+                        let (prov, _off) = ptr.prov_and_relative_offset();
+                        if let Some(rustc_middle::mir::interpret::GlobalAlloc::Static(did)) = tcx.try_get_global_alloc(prov.alloc_id()) {
+                            v.push(("static", J::s(&canon_path(tcx, did))));
+                        }
+                    }
+                }
+            }
             if let Const::Ty(_, ct) = c.const_ {
                 if let ty::ConstKind::Param(pc) = ct.kind() {
                     v.push(("param", J::s(&pc.name.to_string())));
